@@ -63,7 +63,7 @@ template<char op, typename R> constexpr fixed_t ce_assign(fixed_t l, R r) noexce
 CONFIGS_QUICK = [("g++", "c++20", False), ("clang++-14", "c++20", False), ("g++", "c++17", True)]
 CONFIGS_THOROUGH = CONFIGS_QUICK + [("g++", "c++2b", False), ("clang++-14", "c++2b", False), ("clang++-14", "c++17", True), ("g++", "c++17", False), ("clang++-14", "c++17", False)]
 
-def run(lines, model_ab, parse_line, tier, limit, priority=()):
+def run(lines, model_ab, parse_line, tier, limit, priority=(), configs=None):
     """returns (stats, failures) ; failures: list of dict(input, config, error)"""
     items = []
     for line, mo in zip(lines, model_ab):
@@ -77,8 +77,8 @@ def run(lines, model_ab, parse_line, tier, limit, priority=()):
     by_fn = {}
     for it in items: by_fn.setdefault(it[0].split()[0], []).append(it)
     # inputs on which some run-time leg disagreed with the model come first
-    prio = set(priority)
-    sel = [it for it in items if it[0] in prio][:max(50, limit // 4)]
+    prio = {l: i for i, l in reversed(list(enumerate(priority)))}
+    sel = sorted((it for it in items if it[0] in prio), key=lambda it: prio[it[0]])[:max(50, limit // 2)]
     chosen = set(it[0] for it in sel)
     for k in by_fn: by_fn[k] = [it for it in by_fn[k] if it[0] not in chosen]
     while len(sel) < limit and by_fn:
@@ -89,7 +89,7 @@ def run(lines, model_ab, parse_line, tier, limit, priority=()):
     failures, stats = [], []
     d = tempfile.mkdtemp(prefix="fmce")
     try:
-        for cxx, std, abacus in (CONFIGS_QUICK if tier == "quick" else CONFIGS_THOROUGH):
+        for cxx, std, abacus in (configs or (CONFIGS_QUICK if tier == "quick" else CONFIGS_THOROUGH)):
             sqrt_ok = abacus or std != "c++17"
             use = [it for it in sel if sqrt_ok or not it[3]]
             src = os.path.join(d, "ce.cc")
